@@ -444,6 +444,8 @@ class Transaction:
                     f"{method} requires a name or RRset as the first argument"
                 )
             assert rdataset is not None  # for type checkers
+            if len(rdataset) == 0:
+                raise ValueError(f"{method} has an empty rdataset")
             if rdataset.rdclass != self.manager.get_class():
                 raise ValueError(f"{method} has objects of wrong RdataClass")
             if rdataset.rdtype == dns.rdatatype.SOA:
